@@ -103,23 +103,28 @@ def cls_is(cls_term, name):
 # well-known singleton objects: fixed negative references (allocated refs are >= 0)
 
 SINGLETONS = {}
+SINGLETON_CLASS = {}
 
 
-def singleton(name):
+def singleton(name, clsname='object'):
   if name not in SINGLETONS:
     SINGLETONS[name] = -(len(SINGLETONS) + 1)
+    SINGLETON_CLASS[name] = clsname
   return VRef(z3.IntVal(SINGLETONS[name]))
 
 
-NO_VALUE = singleton('NO_VALUE')
-VARARGS = singleton('VARARGS')
+NO_VALUE = singleton('NO_VALUE', 'NoValue')
+VARARGS = singleton('VARARGS', 'VarArgsHandle')
 EMPTY = singleton('inspect.Parameter.empty')
 UNSET_SENTINEL = singleton('_UNSET_SENTINEL')
 DELETED = singleton('history.DELETED')
 CK_NEW_VALUE = singleton('ChangeKind.NEW_VALUE')
 CK_UPDATE_TAGS = singleton('ChangeKind.UPDATE_TAGS')
-TAGGED_VALUE_FN = singleton('tagged_value_fn')
+TAGGED_VALUE_FN = singleton('tagged_value_fn', 'function')
 DC_MISSING = singleton('dataclasses.MISSING')
+TRACKING_STATE = singleton('history._tracking_state', 'threading.local')
+SET_COUNTER = singleton('history._set_counter')
+BUILD_STATE = singleton('building._state', 'threading.local')
 MIN_SINGLETON = -64   # refs below this are free for symbolic user objects
 
 # ---------------------------------------------------------------------------
